@@ -179,6 +179,31 @@ def one_grammar(spec, R, batch, stats, quick):
                     else:
                         e1, e2 = struct_encode([sp, dict(o.genotype.dna)])
                         evs.append({"e": "mut", "rep": rname, "kind": "struct", "g": e1, "m": e2})
+                if rnd == 0:
+                    # the same step asked for MORE individuals than it is given: whatever it yields beyond its input is still
+                    # a mutation of one input individual (the nearest one is offered to the specification as the witness)
+                    inds2 = [Individual(gt, rep) for gt in gts]
+                    try:
+                        with time_limit(20):
+                            out2 = list(GenericMutationStep(1.0).apply(prob, SequentialEvaluator(), rep, rs, inds2, len(inds2) + 3, 1))
+                    except Exception:
+                        out2 = []
+
+                    def far(sp, o):
+                        if kind == "linear":
+                            a_, b_ = list(sp), list(o.genotype.dna)
+                            return abs(len(a_) - len(b_)) * 1000 + sum(1 for x, y in zip(a_, b_) if x != y)
+                        a_, b_ = sp, dict(o.genotype.dna)
+                        return sum(abs(len(a_.get(k, [])) - len(b_.get(k, []))) * 1000 +
+                                   sum(1 for x, y in zip(a_.get(k, []), b_.get(k, [])) if x != y) for k in set(a_) | set(b_))
+                    for i, o in enumerate(out2):
+                        sp = snaps[i] if i < len(snaps) else min(snaps, key=lambda s_: far(s_, o))
+                        if kind == "linear":
+                            e1, e2 = lin_event("mut", rname, [sp, list(o.genotype.dna)])
+                            evs.append({"e": "mut", "rep": rname, "kind": "linear", "g": e1, "m": e2})
+                        else:
+                            e1, e2 = struct_encode([sp, dict(o.genotype.dna)])
+                            evs.append({"e": "mut", "rep": rname, "kind": "struct", "g": e1, "m": e2})
                 gts = [o.genotype for o in out]
                 if rname == "dsge":
                     for gt in gts:
